@@ -38,6 +38,22 @@ func enumerated() []Case {
 		add(p)
 		add(new(big.Int).Add(p, one))
 	}
+	// powers of ten and their neighbours one and two machine words away, evaluated one after
+	// the other: from 10^64 on they share their low word (zero), and their high word and bit
+	// length with it, so anything remembered about "the last large value" under such a key
+	// answers for the wrong number
+	w64 := new(big.Int).Lsh(one, 64)
+	w128 := new(big.Int).Lsh(one, 128)
+	for k := int64(64); k <= 160; k += 3 {
+		p := ref.Pow10(k)
+		add(new(big.Int).Sub(p, w64))
+		add(p)
+		add(new(big.Int).Add(p, w64))
+		if k > 130 {
+			add(new(big.Int).Sub(p, w128))
+			add(p)
+		}
+	}
 	for b := uint(0); b <= 200; b++ {
 		p := new(big.Int).Lsh(one, b)
 		add(new(big.Int).Sub(p, one))
